@@ -191,6 +191,18 @@ class NumDomain(Domain):
             f = self.prog.functions.get(call.get("u"))
             if f is not None and f.get("body"):
                 return f, TOP, [I.eval(a, env) for a in call.get("a", ())]
+        if k == "call":
+            # small boolean helpers of the library applied to an abstract
+            # number (e.g. a file-local `is_ordered_number(x)`)
+            f = self.prog.functions.get(call.get("u"))
+            if f is not None and f.get("body") and not f.get("cls") \
+                    and strip_type(f.get("ret") or "") == "bool" \
+                    and "/symengine/" in (f.get("file") or "") \
+                    and (f.get("file") or "").endswith(".cpp") \
+                    and sum(1 for _ in walk(f["body"])) < 80:
+                args = [I.eval(a, env) for a in call.get("a", ())]
+                if any(isinstance(a, AbsNum) for a in args):
+                    return f, TOP, args
         return None
 
     # ------------------------------------------------------------ atoms
